@@ -985,7 +985,7 @@ C("_lost_segment_handling", arg_types={**SELF, "offset": T.Int, "data_len": T.In
   modifies=LSH_MOD,
   ensures=[
       Clause("C06.gap_is_recorded_exactly", lambda o, n, r: Implies_(_lsh_gap(o), z3.ForAll([TR.X], TR.view(trk(n.self), TR.X) == z3.Or(
-          TR.view(trk(o.self), TR.X), z3.And(o.self._params.acked_params.last_end_offset <= TR.X, TR.X < o.offset)))), ("C06",)),
+          TR.view(trk(o.self), TR.X), z3.And(o.self._params.acked_params.last_end_offset <= TR.X, TR.X < o.offset)))), ("C06", "C01", "C03")),
       Clause("C06.immediate_nak_requests_exactly_the_gap", lambda o, n, r: And_(
           Implies_(And_(_lsh_gap(o), B(rcfg(o.self).immediate_nak_mode)), _one_nak(
               n, o.offset + o.data_len, [(o.self._params.acked_params.last_end_offset, o.offset)], o.self)),
@@ -1917,3 +1917,72 @@ C("get_next_packet", arg_types=SELF, props=("C10",), result=T.Opaque,
               r is not None, n.self._pdus_to_be_sent.length() == o.self._pdus_to_be_sent.length() - 1))), ("C10",)),
   ] + inv_clauses(("C10",)),
   effects=set(), modular=False)
+
+
+# ---------------------------------------------------------------------------------------------- dispatch order
+# The slices above prove each statement of __non_idle_fsm on its own; these ordered multi-statement slices prove that
+# an inserted PDU is handed to its handler, and BEFORE the timer-driven procedure of the same step runs (C05: every
+# accepted File Data PDU is applied; C13: late data is written before the re-verification of the check-limit step).
+def _calls(n):
+    return [e["callee"].rsplit(".", 1)[-1] for e in n.trace if e["kind"] == "opaque_call"]
+
+
+def _dispatch_contract(label, sl, step, pkt_cls, first, then, props):
+    def ordered(o, n, r):
+        cs = _calls(n)
+        if first not in cs:
+            return False
+        if then is not None and then in cs and cs.index(then) < cs.index(first):
+            return False
+        return True
+    c = C("__non_idle_fsm", instance=label, arg_types={**SELF, "packet": T.Opaque}, props=props, result=None,
+          setup=lambda interp, roots, pkt_cls=pkt_cls: roots.__setitem__("packet", interp.fresh_obj(pkt_cls, "packet")),
+          requires=[("MidCondition", lambda o: mid_condition(o.self))] + DEFAULT + [
+              ("busy", lambda o: ne(o.self.states.state, IDLE)), ("admitted", _d_admitted),
+              ("step", lambda o, step=step: step_is(o.self, step)), ("queue_empty", lambda o: qempty(o.self))],
+          modifies=DFSM_MOD,
+          ensures=[Clause(f"dispatch.{first}_is_invoked_first", ordered, props)],
+          raises=[RaiseClause("vfs.truncate_race", FileNotFoundError, when=lambda o: o.packet.cls is MetadataPdu, props=props, modifies=DFSM_MOD)],
+          effects={"vfs", "user", "timer", "fault_cb"}, modular=True)
+    c.contract_callees = set(DFSM_CALLEES)
+    c.check_callee_pre = False   # (the callee preconditions are proved by the single-statement slices)
+    c.slice = sl
+    c.n_body_statements = 9
+    c.call_default = False
+    return c
+
+
+_dispatch_contract("ORDER_CHECK_LIMIT_FD", ((0, 1, 2), 4), STEP.RECV_FILE_DATA_WITH_CHECK_LIMIT_HANDLING, _FD,
+                   "_handle_fd_pdu", "_check_limit_handling", ("C05", "C13"))
+_dispatch_contract("ORDER_RECEIVING_FD", ((0, 1), 2), STEP.RECEIVING_FILE_DATA, _FD, "_handle_fd_pdu", None, ("C05", "C02"))
+_dispatch_contract("ORDER_RECEIVING_EOF", ((0, 1), 2), STEP.RECEIVING_FILE_DATA, EofPdu, "_handle_eof_pdu", None, ("C02", "C13"))
+_dispatch_contract("ORDER_CHECK_LIMIT_EOF", ((0, 1), 2), STEP.RECV_FILE_DATA_WITH_CHECK_LIMIT_HANDLING, EofPdu, "_handle_eof_pdu", None, ("C13",))
+_dispatch_contract("ORDER_MISSING_DATA_FD", ((0, 1), 5), STEP.WAITING_FOR_MISSING_DATA, _FD,
+                   "_handle_fd_pdu", "_deferred_lost_segment_handling", ("C05", "C03", "C06"))
+_dispatch_contract("ORDER_WAITING_FOR_METADATA", ((0, 1), 3), STEP.WAITING_FOR_METADATA, MetadataPdu,
+                   "_handle_waiting_for_missing_metadata", "_deferred_lost_segment_handling", ("C03",))
+
+
+# ---------------------------------------------------------------------------------------------- C01 frame
+def _ck_guard_now(h):
+    """the checksum guard evaluated on the current parameters: null checksum / metadata only, or the filestore checksum of
+    the destination file over the progress equals the checksum announced by the EOF PDU"""
+    p = h._params
+    trivial = Or_(eq(p.checksum_type, ChecksumType.NULL_CHECKSUM), B(p.fp.metadata_only))
+    match = opt(p.fp.crc32, lambda c: Eq_(fs_checksum(FS0, to_z3_int(p.checksum_type), p.fp.file_name.p, to_z3_int(p.fp.progress)), c.b)
+                if isinstance(c, SBytes) and c.b is not None else False, False)
+    return Or_(trivial, match)
+
+
+def _c01_frame(o, n, r):
+    """nobody but the checksum verification manufactures DATA_COMPLETE (D10)"""
+    return Implies_(And_(ne(n.self.states.state, IDLE), eq(_fpar(n.self).delivery_code, DeliveryCode.DATA_COMPLETE)),
+                    Or_(And_(n.self._params.oid == o.self._params.oid, eq(_fpar(o.self).delivery_code, DeliveryCode.DATA_COMPLETE)),
+                        _ck_guard_now(n.self)))
+
+
+for _c in CONTRACTS:
+    if _c.fq.startswith(P) and not _c.trusted and not _c.fq.endswith("_checksum_verify") and "self" in _c.arg_types \
+            and not _c.fq.endswith(".state_machine") \
+            and not any(cl.label == "C01.data_complete_only_under_checksum_guard" for cl in _c.ensures):
+        _c.ensures.append(Clause("C01.data_complete_only_under_checksum_guard", _c01_frame, ("C01",)))
